@@ -355,7 +355,10 @@ theorem ctor_id_is_crc32_counterexample :
 
 /-! ### Hand-written codecs -/
 
-/-- `ton.AccountID.MarshalTL`, `ton.BlockIDExt.MarshalTL` and `tl.Int256.MarshalTL` produce the schema encoding of
+/-- (hand models `accountIdTL`, `blockIdExtTL`, one line each, tied to the Go code by the ops `tl.hw.*` only — these three
+codecs are NOT extracted; `LiteServerSignatureSet` of liteclient/extensions.go IS extracted and covered by
+`liteapi_steps_eq_schema`; `tlb.VmStack.MarshalTL` has no theorem, only the oracle `go.tl.hw.vmstack`.)
+`ton.AccountID.MarshalTL`, `ton.BlockIDExt.MarshalTL` and `tl.Int256.MarshalTL` produce the schema encoding of
 `liteServer.accountId`, `tonNode.blockIdExt` (both declared so in lite_api.tl) and `int256` -/
 theorem handwritten_types_spec :
     (accountIdDecl ∈ liteApi.types ∧ blockIdExtDecl ∈ liteApi.types) ∧
@@ -373,6 +376,62 @@ theorem handwritten_types_spec :
     simp [encode, ha, accountIdDecl, encodeFields, present?, hw, hl, accountIdTL]
   · intro wc shard seqno root file hw hs hq hr hf
     simp [encode, hb, blockIdExtDecl, encodeFields, present?, hw, hs, hq, hr, hf, blockIdExtTL]
+
+theorem take_app (a b : Bytes) (n : Nat) (h : a.length = n) : (a ++ b).take n = a := by
+  subst h; simp
+
+theorem drop_app (a b : Bytes) (n : Nat) (h : a.length = n) : (a ++ b).drop n = b := by
+  subst h; simp
+
+/-- decode sides of the hand-written codecs: `(*ton.AccountID).UnmarshalTL`, `(*ton.BlockIDExt).UnmarshalTL` and
+`(*tl.Int256).UnmarshalTL` read back what the Marshal sides write (for `AccountID`/`Int256`: followed by anything, leaving
+the rest; `BlockIDExt` takes a slice of exactly 80 bytes and refuses every other length) — and that is what the schema
+decoder returns for the declarations `liteServer.accountId` / `tonNode.blockIdExt` of lite_api.tl -/
+theorem handwritten_types_decode :
+    (∀ wc (addr rest : Bytes), wc < 2 ^ 32 → addr.length = 32 →
+      accountIdUnTL (accountIdTL wc addr ++ rest) = .ok ((wc, addr), rest) ∧
+      ∀ fuel, 2 ≤ fuel → decode liteApi fuel (.bare "liteServer.accountId") (accountIdTL wc addr ++ rest)
+        = .ok (.tuple [.num wc, .raw addr], rest)) ∧
+    (∀ wc shard seqno (root file : Bytes), wc < 2 ^ 32 → shard < 2 ^ 64 → seqno < 2 ^ 32 → root.length = 32 →
+      file.length = 32 →
+      blockIdExtUnTL (blockIdExtTL wc shard seqno root file) = .ok (wc, shard, seqno, root, file) ∧
+      ∀ fuel, 2 ≤ fuel → decode liteApi fuel (.bare "tonNode.blockIdExt") (blockIdExtTL wc shard seqno root file)
+        = .ok (.tuple [.num wc, .num shard, .num seqno, .raw root, .raw file], [])) ∧
+    (∀ data : Bytes, data.length ≠ 80 → blockIdExtUnTL data = .err "invalid data length") ∧
+    (∀ bs rest : Bytes, bs.length = 32 → int256UnTL (bs ++ rest) = .ok (bs, rest)) := by
+  obtain ⟨_, ha, hb, _⟩ := handwritten_types_spec
+  refine ⟨?_, ?_, fun data h => by simp [blockIdExtUnTL, h], fun bs rest h => readN_append' 32 bs rest h⟩
+  · intro wc addr rest hw hl
+    refine ⟨?_, fun fuel hf => ?_⟩
+    · simp [accountIdUnTL, accountIdTL, readLE4 wc _ hw, readN_append' 32 addr rest hl]
+    · exact liteapi_decode_encode _ _ _ rest fuel (ha wc addr hw hl) (by simp [Val.depth, depthList]; omega)
+  · intro wc shard seqno root file hw hs hq hr hf
+    refine ⟨?_, fun fuel hfu => ?_⟩
+    · have hlen : (blockIdExtTL wc shard seqno root file).length = 80 := by
+        simp [blockIdExtTL, le_length, hr, hf]
+      have e1 : (blockIdExtTL wc shard seqno root file).take 4 = le 4 wc := by
+        simp only [blockIdExtTL, List.append_assoc]; exact take_app _ _ 4 (le_length 4 wc)
+      have d1 : (blockIdExtTL wc shard seqno root file).drop 4 = le 8 shard ++ (le 4 seqno ++ (root ++ file)) := by
+        simp only [blockIdExtTL, List.append_assoc]; exact drop_app _ _ 4 (le_length 4 wc)
+      have d2 : (blockIdExtTL wc shard seqno root file).drop 12 = le 4 seqno ++ (root ++ file) := by
+        have : (blockIdExtTL wc shard seqno root file).drop 12 = ((blockIdExtTL wc shard seqno root file).drop 4).drop 8 := by
+          simp
+        rw [this, d1]; exact drop_app _ _ 8 (le_length 8 shard)
+      have d3 : (blockIdExtTL wc shard seqno root file).drop 16 = root ++ file := by
+        have : (blockIdExtTL wc shard seqno root file).drop 16 = ((blockIdExtTL wc shard seqno root file).drop 12).drop 4 := by
+          simp
+        rw [this, d2]; exact drop_app _ _ 4 (le_length 4 seqno)
+      have d4 : (blockIdExtTL wc shard seqno root file).drop 48 = file := by
+        have : (blockIdExtTL wc shard seqno root file).drop 48 = ((blockIdExtTL wc shard seqno root file).drop 16).drop 32 := by
+          simp
+        rw [this, d3]; exact drop_app _ _ 32 hr
+      simp only [blockIdExtUnTL, hlen, ne_eq, not_true_eq_false, if_false, e1, d1, d2, d3, d4,
+        take_app _ _ 8 (le_length 8 shard), take_app _ _ 4 (le_length 4 seqno), take_app _ _ 32 hr,
+        List.take_of_length_le (Nat.le_of_eq hf), unLe_le 4 wc (by simpa using hw), unLe_le 8 shard (by simpa using hs),
+        unLe_le 4 seqno (by simpa using hq)]
+    · have := liteapi_decode_encode _ _ _ [] fuel (hb wc shard seqno root file hw hs hq hr hf)
+        (by simp [Val.depth, depthList]; omega)
+      simpa using this
 
 /-! ### the length prefix of `bytes`/`string`: regenerated Go code against the model -/
 
